@@ -1309,9 +1309,9 @@ func main() {
 		ID: "C21", Model: "C21", Gen: gen, Impl: impl, Oracle: oracle, Serial: true,
 		Cases: func(th bool) int {
 			if th {
-				return 4000
+				return 3000
 			}
-			return 250
+			return 170
 		},
 		Extra: func() map[string]interface{} {
 			m := map[string]interface{}{}
